@@ -227,6 +227,9 @@ def handleUses (j : Json) : List (String × Json) :=
       "\n".intercalate (head ++ [if stripNs fd = stripNs pd then "tree:equal" else "tree:DIFF",
         if fd = pd then "ns:ok" else "ns:BAD", "dump:\n" ++ (if useF then fd else pd)])
     | _, _ => "\n".intercalate head
-  [("m", mk true), ("s", mk false)]
+  -- RFC 6020 6.2.1: a choice and the data nodes around it share one namespace — the code (and the model) keep the choices
+  -- of a node apart from its child map; where the generator wrote such a pair the specification says "name clash"
+  let s := if jstr j "clash" = "mixed" then "F:err:name-clash\nP:err:name-clash" else mk false
+  [("m", mk true), ("s", s)]
 
 end YV.Drv.Cm
